@@ -146,6 +146,8 @@ type Ctx struct {
 	curFrame   *frame
 	onceDone   map[*Cell]bool
 	inGoPanic  bool
+	mapPolicy  int
+	pools      map[*Cell][]Value
 }
 
 func (c *Ctx) abort(kind, format string, a ...interface{}) {
@@ -1491,7 +1493,10 @@ func (c *Ctx) equal(t types.Type, a, b Value) *Term {
 	case *StructVal:
 		y := b.(*StructVal)
 		var cs []*Term
-		st, _ := t.Underlying().(*types.Struct)
+		var st *types.Struct
+		if t != nil {
+			st, _ = t.Underlying().(*types.Struct)
+		}
 		for i := range x.F {
 			var ft types.Type
 			if st != nil {
@@ -1504,8 +1509,10 @@ func (c *Ctx) equal(t types.Type, a, b Value) *Term {
 		y := b.(*ArrayVal)
 		var cs []*Term
 		var et types.Type
-		if at, ok := t.Underlying().(*types.Array); ok {
-			et = at.Elem()
+		if t != nil {
+			if at, ok := t.Underlying().(*types.Array); ok {
+				et = at.Elem()
+			}
 		}
 		for i := range x.E {
 			cs = append(cs, c.equal(et, x.E[i], y.E[i]))
@@ -1626,6 +1633,31 @@ func (c *Ctx) rangeIter(x Value, t types.Type) Value {
 		if x != nil {
 			it.keys = append([]Value{}, x.Keys...)
 			it.vals = append([]Value{}, x.Vals...)
+			if !c.Ex.MapOrder && c.mapPolicy != 0 && len(it.keys) > 1 {
+				n := len(it.keys)
+				switch c.mapPolicy {
+				case 1: // reverse
+					for i, j := 0, n-1; i < j; i, j = i+1, j-1 {
+						it.keys[i], it.keys[j] = it.keys[j], it.keys[i]
+						it.vals[i], it.vals[j] = it.vals[j], it.vals[i]
+					}
+				case 2: // rotate by one
+					k0, v0 := it.keys[0], it.vals[0]
+					copy(it.keys, it.keys[1:])
+					copy(it.vals, it.vals[1:])
+					it.keys[n-1], it.vals[n-1] = k0, v0
+				case 3: // swap the first two
+					it.keys[0], it.keys[1] = it.keys[1], it.keys[0]
+					it.vals[0], it.vals[1] = it.vals[1], it.vals[0]
+				case 4: // rotate by two
+					for r := 0; r < 2; r++ {
+						k0, v0 := it.keys[0], it.vals[0]
+						copy(it.keys, it.keys[1:])
+						copy(it.vals, it.vals[1:])
+						it.keys[n-1], it.vals[n-1] = k0, v0
+					}
+				}
+			}
 			if c.Ex.MapOrder && len(it.keys) > 1 {
 				// nondeterministic iteration order: choose a permutation by successive picks
 				n := len(it.keys)
